@@ -22,7 +22,16 @@ RULE = ("(a) fmatch: 20..80 beads in an orthorhombic box, LAMMPS dump with "
         "functions on the fit grid (steps 0.02..1.0, 2..10 intervals), "
         "constrained and plain least squares, 1/2/3 blocks (distinct or "
         "replicated frames), out_step = step/{1,2,4,5}, nbsearch grid/simple, "
-        "--no-map or a 1:1 mapping. A case is judged only if every spline "
+        "--no-map or a 1:1 mapping; family mixed-order: 2..4 interactions "
+        "(pair / bond / angle / dihedral) in a random permutation of the "
+        "options file and an independent permutation of <bonded>/<cg_bonded>, "
+        "0..2 of them dihedrals with fmatch.periodic on the whole circle at "
+        "any position (keys fmatch/mixed-order/<kind>[-periodic]-<first|later>"
+        "/...); 20 % of all cases with --trj-force (known forces subtracted, "
+        "cg.fmatch.dist set or not), 20 % with junk frames around the used ones "
+        "and --first-frame/--nframes, 4 % with frames_per_block larger than "
+        "the trajectory (documented error exit expected, no sanitizer "
+        "report). A case is judged only if every spline "
         "interval of every interaction got >= 8 samples spread over at least "
         "half the interval in every block and no value lies outside the grid, "
         "otherwise it is counted skipped_inconclusive_undersampled. Internal "
@@ -31,7 +40,7 @@ RULE = ("(a) fmatch: 20..80 beads in an orthorhombic box, LAMMPS dump with "
         "(b) imc_solve: n = 2..40, symmetric and non-symmetric (dense, "
         "near-triangular, prescribed singular values) A, r = |A|^2 * "
         "10^[-6,1], 6..11 printed digits, 1..3 interactions listed in "
-        "shuffled order. (c) qrsolve: n = 2..30 unknowns, 1..n-1 constraints "
+        "shuffled order; 10 % with -r omitted (default 0) and cond(A) <= 32. (c) qrsolve: n = 2..30 unknowns, 1..n-1 constraints "
         "with cond(B) <= 1e4, scale 1e-3..1e3, dense / badly scaled / "
         "spline-structured (real CubicSpline rows) / consistent systems; "
         "non-trivial = the unconstrained minimiser violates the constraints.")
